@@ -560,6 +560,88 @@ def _equiv(a, b, identity_leaves, depth=0):
     return repr(a) == repr(b) or type(a).__module__.startswith(("sktime", "sklearn", "numpy", "pandas"))
 
 
+def _digest(v, depth=0):
+    """value of an instance attribute: by value for scalars / arrays / pandas objects / small containers,
+    by identity and class for everything else"""
+    if isinstance(v, float):
+        return repr(v)
+    if isinstance(v, (int, str, bool, bytes, type(None), np.generic)):
+        return (type(v).__name__, repr(v))
+    if isinstance(v, np.ndarray):
+        try:
+            return ("nd", v.shape, str(v.dtype), hash(v.tobytes()) if v.dtype != object else len(v))
+        except Exception:
+            return ("nd", v.shape)
+    if isinstance(v, (pd.Series, pd.DataFrame, pd.Index)):
+        try:
+            return (type(v).__name__, v.shape, int(pd.util.hash_pandas_object(v, index=True).sum()) if not isinstance(v, pd.Index)
+                    else int(pd.util.hash_pandas_object(v).sum()))
+        except Exception:
+            return (type(v).__name__, getattr(v, "shape", None), id(v))
+    if depth < 3 and isinstance(v, (list, tuple)) and len(v) <= 50:
+        return (type(v).__name__, tuple(_digest(x, depth + 1) for x in v))
+    if depth < 3 and isinstance(v, dict) and len(v) <= 50:
+        return ("dict", tuple(sorted((str(k), _digest(x, depth + 1)) for k, x in v.items())))
+    return ("obj", type(v).__name__, id(v))
+
+
+def _given_objects(params, depth=0, prefix=""):
+    """[(path, estimator)] : every estimator object reachable from the constructor arguments"""
+    out = []
+    if depth > 4:
+        return out
+
+    def walk(v, path, d):
+        if d > 6:
+            return
+        if hasattr(v, "get_params") and not isinstance(v, type):
+            out.append((path, v))
+            try:
+                for k, x in v.get_params(deep=False).items():
+                    walk(x, path + "/" + k, d + 1)
+            except Exception:
+                pass
+        elif isinstance(v, (list, tuple)):
+            for i, x in enumerate(v):
+                nm = x[0] if isinstance(x, tuple) and x and isinstance(x[0], str) else str(i)
+                if isinstance(x, tuple):
+                    for y in x[1:]:
+                        walk(y, path + "/" + nm, d + 1)
+                else:
+                    walk(x, path + "/" + nm, d + 1)
+    for k, v in params.items():
+        walk(v, k, 0)
+    return out
+
+
+def given_state(params):
+    """{(path, attr): digest} of the instance state (vars(): private and fitted attributes) of every estimator
+    object the user passed in, at any depth"""
+    st = {}
+    for path, obj in _given_objects(params):
+        try:
+            pnames = set(obj.get_params(deep=False))
+        except Exception:
+            pnames = set()
+        try:
+            items = list(vars(obj).items())
+        except TypeError:
+            continue
+        for a, v in items:
+            if a in pnames:
+                continue                      # parameters are compared by the parameter snapshot
+            st[(path, a)] = _digest(v)
+    return st
+
+
+def touched(st0, st1):
+    out = []
+    for key in sorted(set(st0) | set(st1)):
+        if st0.get(key, "<absent>") != st1.get(key, "<absent>"):
+            out.append("%s.%s" % (key[0].split("/")[0] if "/" not in key[0] else key[0].replace("/", ">"), key[1]))
+    return out
+
+
 def _snapshot(v, depth=0):
     """structural snapshot of a parameter value (to notice in-place mutation across fit)"""
     if depth > 4:
@@ -854,8 +936,9 @@ def _probe_class(module, name, key, table_params, do_fit=True, budget_s=20.0):
     try:
         before = est.get_params(deep=False)
         snap = {k: _snapshot(v) for k, v in before.items()}
+        state0 = given_state(before)
     except BaseException as e:
-        before, snap = None, None
+        before, snap, state0 = None, None, None
     a, k = fit_args(fam, name, D)
     fitted_ok = False
     try:
@@ -896,6 +979,21 @@ def _probe_class(module, name, key, table_params, do_fit=True, budget_s=20.0):
                 obs["fit"] = fit_tokens
             except BaseException as e:
                 obs["fitdiag"] = "get_params after fit: " + canon_err(e)
+            # the objects the user passed in keep their own state (private and fitted attributes) through fit
+            # and through every apply-type method of the fitted composite
+            try:
+                touch = []
+                st1 = given_state(before)
+                touch.extend("fit:" + t for t in touched(state0, st1))
+                for m in methods:
+                    a_, k_ = call_args(fam, m, D)
+                    _outcome(lambda: getattr(est, m)(*a_, **k_), limit=5.0)
+                    st2 = given_state(before)
+                    touch.extend("%s:%s" % (m, t) for t in touched(st1, st2))
+                    st1 = st2
+                obs["touch"] = touch[:12]
+            except BaseException as e:
+                obs["fitdiag"] += " state digest failed: " + canon_err(e)
         # other option combinations: fit must keep the (deep) parameters there as well
         if obs["fit"] is not None:
             try:
